@@ -57,7 +57,9 @@ Lemma gen_babyjub_PointFromSignAndY_eq : forall sign y,
   babyjub_PointFromSignAndY sign y = BabyJub.PointFromSignAndY sign y.
 Proof.
   intros. unfold babyjub_PointFromSignAndY, BabyJub.PointFromSignAndY.
-  rewrite gen_babyjub_PointCoordSign_fn. unfold BabyJub.Q. same.
+  rewrite gen_babyjub_PointCoordSign_fn. unfold BabyJub.Q.
+  replace (y >=? CurveConsts.Q) with (negb (y <? CurveConsts.Q)) by (rewrite Z.geb_leb, Z.leb_antisym; reflexivity).
+  same.
 Qed.
 
 Lemma gen_babyjub_Point_Decompress_eq : forall leBuf,
